@@ -99,7 +99,10 @@ func (t *corrTarget) implClass(r *Res) string {
 		}
 		return "err"
 	case "panic", "crash":
-		_, site, _, _ := r.panicParts()
+		cl, site, _, _ := r.panicParts()
+		if r.Status == "crash" && cl == "out-of-memory" {
+			return "oom"
+		}
 		if t.hdrSites.MatchString(site) {
 			return "panic"
 		}
@@ -113,8 +116,18 @@ func (t *corrTarget) implClass(r *Res) string {
 
 // compare returns the two strings handed to CorrEq (equal = consistent).
 func (t *corrTarget) compare(model string, impl string) (m, i string) {
+	var maxAlloc int64
 	if k := strings.Index(model, " a="); k >= 0 {
+		fmt.Sscanf(model[k+3:], "%d", &maxAlloc)
 		model = model[:k]
+	}
+	if impl == "oom" {
+		// the Go process died with a fatal out-of-memory under the harness address-space limit:
+		// consistent iff the model recorded an allocation request of at least 1 GiB
+		if maxAlloc >= 1<<30 {
+			return "oom", "oom"
+		}
+		return model, "oom"
 	}
 	switch {
 	case t.op == "prs_j2k":
